@@ -105,7 +105,9 @@ def _settings(n, shrink=True):
 
 
 def shard_worker(args):
-    (pid, tier, seed, shard, nshards, examples, budget_s, known) = args
+    (pid, tier, seed, shard, nshards, examples, budget_s, known,
+     survey) = args
+    survey_samples = {}
     t0 = time.monotonic()
     res = {"shard": shard, "failures": [], "error": None}
     stats = Stats()
@@ -139,8 +141,15 @@ def shard_worker(args):
                     kid = match_known(v.signature, known)
                     if kid is not None:
                         stats.known_hits[kid] += 1
-                    elif v.signature in excluded:
+                    elif v.signature in excluded or survey:
                         stats.excluded_hits[v.signature] += 1
+                        if survey:
+                            old = survey_samples.get(v.signature)
+                            size = len(json.dumps(common.to_jsonable(case),
+                                                  default=str))
+                            if old is None or size < old[0]:
+                                survey_samples[v.signature] = (
+                                    size, case, v.to_json())
                     else:
                         if state["t_fail"] is None:
                             state["t_fail"] = now
@@ -176,6 +185,7 @@ def shard_worker(args):
         known_hits=dict(stats.known_hits),
         excluded_hits=dict(stats.excluded_hits),
         skipped_budget=stats.skipped_budget,
+        survey_samples=survey_samples,
         wall_s=time.monotonic() - t0,
     )
     return res
@@ -240,6 +250,9 @@ def main(argv=None):
     ap.add_argument("--examples", type=int, help="examples per shard")
     ap.add_argument("--budget", type=float, help="seconds per shard")
     ap.add_argument("--no-evidence", action="store_true")
+    ap.add_argument("--survey", action="store_true",
+                    help="development aid: count every violation signature "
+                         "instead of stopping; never writes evidence")
     args = ap.parse_args(argv)
     pid = args.property.upper()
     try:
@@ -285,7 +298,8 @@ def main(argv=None):
 
     ctx = mp.get_context("fork")
     jobs = [(pid, args.tier, seed, s, nshards, prof["examples"],
-             prof["budget_s"], known) for s in range(nshards)]
+             prof["budget_s"], known, args.survey)
+            for s in range(nshards)]
     with ctx.Pool(min(nshards + 1, (os.cpu_count() or 4))) as pool:
         corpus_async = pool.apply_async(_corpus_worker, ((pid, known),))
         results = pool.map(shard_worker, jobs, chunksize=1)
@@ -348,6 +362,27 @@ def main(argv=None):
     for f in extra.get("failures", []):
         failures.append(f)
 
+    if args.survey:
+        tot = collections.Counter()
+        best = {}
+        for r in results:
+            tot.update(r["excluded_hits"])
+            for sig, (size, case, v) in r["survey_samples"].items():
+                if sig not in best or size < best[sig][0]:
+                    best[sig] = (size, case, v)
+        sd = os.path.join(HERE, "replays", "found", "survey")
+        os.makedirs(sd, exist_ok=True)
+        print(f"[{pid}] SURVEY evaluations={evaluations} "
+              f"known_hits={dict(known_hits)}")
+        for sig, n in sorted(tot.items()):
+            path = os.path.join(sd, f"{pid}-{case_hash(best[sig][1])}.json")
+            dump_json({"property": pid, "case": best[sig][1],
+                       "violation": best[sig][2]}, path)
+            print(f"  {n:6d}  {sig}\n          {best[sig][2]['detail'][:160]}"
+                  f"\n          {path}")
+        for e in errors[:2]:
+            print(e)
+        return 0 if not errors else 2
     wall = time.monotonic() - t0
     if not samples:
         # fall back to any evaluated case so that the list is never empty
@@ -381,7 +416,7 @@ def main(argv=None):
         "wall_s": round(wall, 2),
         "violations": len(failures),
     }
-    if not args.no_evidence and not errors:
+    if not args.no_evidence and not errors and not args.survey:
         os.makedirs(os.path.join(HERE, "evidence"), exist_ok=True)
         dump_json(evidence, os.path.join(HERE, "evidence", f"{pid}.json"))
 
